@@ -23,9 +23,9 @@ NestExpected(r) ==
   IN IF ~NestOKX(r.d1, r.d2) \/ bothvar THEN [build |-> "ValueError", vec |-> << >>]
      ELSE [build |-> "ok",
            vec |-> [i \in DOMAIN r.probes |->
-                      IF AcceptsX(r.d1, r.u1, r.probes[i].cls) /\ AcceptsX(r.d2, r.u2, r.probes[i].cls)
-                         /\ CheckShape(p2.dims \o p1.dims, r.probes[i].shape, EmptyMemo, EmptyFn, NoLabel).r = "T"
-                      THEN "T" ELSE "F"]]
+                      \* the dtype is looked at first; the shape walk may answer "E" (a '?' axis outside a structured PyTree)
+                      IF ~(AcceptsX(r.d1, r.u1, r.probes[i].cls) /\ AcceptsX(r.d2, r.u2, r.probes[i].cls)) THEN "F"
+                      ELSE CheckShape(p2.dims \o p1.dims, r.probes[i].shape, EmptyMemo, EmptyFn, NoLabel).r]]
 
 Expected(r) ==
   CASE r.kind = "dtype" -> [res |-> IF Accepts(r.cat, r.cls) THEN "T" ELSE "F"]
